@@ -101,6 +101,23 @@ Theorem C14_unknown_escape_partial : forall c, c < 128 -> kept_ok c = true.
 Proof. exact (forallb_below kept_ok 128 ltac:(vm_compute; reflexivity)). Qed.
 Print Assumptions C14_unknown_escape_partial.
 
+(* "the value of a string literal does not depend on the configuration" is FALSE at full strength:
+   a RAW line break inside a literal is replaced by the environment's newline_sequence (documented for
+   Lexer._normalize_newlines: "Replace all newlines with the configured sequence in strings and
+   template data") ... *)
+Theorem C14_raw_break_refuted : exists body, convert [10] body <> convert [13; 10] body.
+Proof. exists [97; 10; 98]. vm_compute. discriminate. Qed.
+
+(* ... and true for every literal without raw CR / LF (line breaks written \n, \r are exact, see
+   C14_string_roundtrip); with the default newline_sequence raw CR, CRLF and LF all denote LF,
+   which is what Python's own source-line normalisation gives a (triple-quoted) literal *)
+Theorem C14_raw_break_partial : forall nl nl' body, no_raw_breaks body = true -> convert nl body = convert nl' body.
+Proof. exact convert_config_independent. Qed.
+Print Assumptions C14_raw_break_partial.
+
+Theorem C14_raw_break_default : normalize [10] [97; 13; 10; 98; 13; 99; 10; 100] = [97; 10; 98; 10; 99; 10; 100].
+Proof. reflexivity. Qed.
+
 (* non-vacuity *)
 Example C14_example :
   lex_number (Some 32) [49; 95; 48; 48; 48] = Some (KIntTok, 5%nat) /\ jinja_int 4300 [49; 95; 48; 48; 48] = Ok 1000%Z /\
